@@ -388,7 +388,11 @@ def run_cases(exe, cases, timeout_per_case=20, env=None, jobs=None, args=()):
             rest = [(cid, ops) for cid, ops in pending if cid not in done]
             if not rest:
                 break
-            # the first not-done case is the one that killed (or hung) the harness
+            # the first not-done case is the one that killed (or hung) the harness - unless it never
+            # started (the process left after finishing the previous case, e.g. an abandoned deadlock)
+            if rest[0][0] not in buf and rc != -999 and len(rest) < len(pending):
+                pending = rest
+                continue
             cid, ops = rest[0]
             what = "hang" if rc == -999 else ("exit=%d" % rc)
             tail = " ".join(se.strip().split("\n")[-12:])[-1500:]
